@@ -85,8 +85,12 @@ def body_sql(body):
 
         def walk(o):
             if isinstance(o, dict):
-                if "str" in o and isinstance(o["str"], str):
-                    st = norm(o["str"])
+                for key in ("str", "bytes"):
+                    if key not in o or not isinstance(o[key], str):
+                        continue
+                    st = norm("".join(ch if ch.isprintable() else " " for ch in o[key]))
+                    if key == "bytes":
+                        st = norm(re.sub(r"^[^A-Za-z]*", "", st))
                     if re.match(r"(INSERT|UPDATE|DELETE|SELECT|PRAGMA|CREATE) ", st, re.I):
                         out.append((bb, st))
                 for v in o.values():
@@ -96,3 +100,16 @@ def body_sql(body):
                     walk(v)
         walk(bl)
     return out
+
+
+def select_shape(stmt):
+    """tokenised shape of a SELECT: (tables, join kind, where columns, uses IS NULL anti-join)"""
+    s = norm(stmt)
+    tables = sorted(set(t.lower() for t in re.findall(r"(?:FROM|JOIN)\s+(\w+)", s, re.I)))
+    left = bool(re.search(r"LEFT\s+JOIN", s, re.I))
+    m = re.search(r"\bWHERE\b(.*)$", s, re.I)
+    where = m.group(1) if m else ""
+    # strip sub-selects' own keywords but keep their column names
+    cols = sorted(set(c.lower() for c in re.findall(r"(?:\b\w+\.)?(\w+)\s*(?:=|<=|>=|<|>|\bIN\b|\bIS\b)", where, re.I)))
+    anti = bool(re.search(r"IS\s+NULL", where, re.I))
+    return {"tables": tables, "left_join": left, "where": cols, "anti_join": anti}
